@@ -1,8 +1,9 @@
-//@props C05 C06 C09
+//@props C05 C06 C08 C09 C18
 //@strip-attrs derive :: derive output is outside Verus
 //@derive-keep Clone|Copy
 //@hoist-closure-patterns :: closure parameter patterns hoisted into a let (Verus accepts only variables as closure parameters)
 //@hoist-format-captures :: format! inline captures hoisted to positional arguments
+//@rewrite `== Some(*h)` => `.shim_opt_eq(Some(*h))` :: vstd declares Option's PartialEq::eq without a postcondition; stand-in stating structural equality (spec/lib/prelude.rs)
 //@rewrite `.filter_map(` => `.shim_filter_map(` :: provided trait method Iterator::filter_map: stand-in with the std meaning (spec/lib/iter_shims.rs)
 //@rewrite `.filter(` => `.shim_filter(` :: provided trait method Iterator::filter: stand-in with the std meaning (spec/lib/iter_shims.rs)
 //@rewrite `.enumerate()` => `.shim_enumerate()` :: provided trait method Iterator::enumerate: stand-in with the std meaning (spec/lib/iter_shims.rs)
@@ -372,6 +373,193 @@ fn rust_struct(
 }
 //@end
 
+
+// the filter's decision in terms of the handle and the set actually built
+pub open spec fn result_is_h(e: &naga::EntryPoint, h: naga::Handle<naga::Type>) -> bool { match e.function.result { Some(r) => r.ty == h, None => false } }
+pub open spec fn arg_is_h(e: &naga::EntryPoint, h: naga::Handle<naga::Type>) -> bool { exists|a: int| 0 <= a < e.function.arguments@.len() && (#[trigger] e.function.arguments@[a]).ty == h }
+pub open spec fn emitted_h(m: &naga::Module, gvt: Set<naga::Handle<naga::Type>>, h: naga::Handle<naga::Type>) -> bool {
+    (!(exists|k: int| 0 <= k < m.entry_points@.len() && result_is_h(&#[trigger] m.entry_points@[k], h))
+        && (exists|k: int| 0 <= k < m.entry_points@.len() && arg_is_h(&#[trigger] m.entry_points@[k], h)))
+    || gvt.contains(h)
+}
+pub open spec fn emitted_in(m: &naga::Module, gvt: Set<naga::Handle<naga::Type>>, h: naga::Handle<naga::Type>, t: &naga::Type) -> bool {
+    0 <= handle_index(h) < tys(m).len() && *t == tys(m)[handle_index(h)] && emitted_h(m, gvt, h)
+}
+pub open spec fn opt_ts(o: Option<TokenStream>) -> Option<Seq<Tok>> { match o { Some(t) => Some(ts_view(&t)), None => None } }
+pub proof fn lemma_somes_toks(ys: Seq<Option<TokenStream>>, zs: Seq<Option<Seq<Tok>>>)
+    requires ys.len() == zs.len(), forall|i: int| 0 <= i < ys.len() ==> #[trigger] zs[i] == opt_ts(ys[i]),
+    ensures toks_of(somes(ys)) =~= somes(zs),
+    decreases ys.len(),
+{
+    if ys.len() > 0 { lemma_somes_toks(ys.drop_last(), zs.drop_last()); assert(zs.last() == opt_ts(ys.last())); }
+}
+// handles are determined by their index, so the handle-level decision is the index-level one of the model
+pub proof fn lemma_emitted_h(m: &naga::Module, gvt: Set<naga::Handle<naga::Type>>, h: naga::Handle<naga::Type>)
+    requires forall|x: naga::Handle<naga::Type>| gvt.contains(x) == host_visible(m, handle_index(x)),
+    ensures emitted_h(m, gvt, h) == emitted(m, handle_index(h)),
+{
+    broadcast use axiom_mk_handle;
+    let i = handle_index(h);
+    assert forall|e: naga::EntryPoint| result_is_h(&e, h) == result_is(&e, i) by {
+        match e.function.result { Some(r) => { axiom_mk_handle(r.ty); axiom_mk_handle(h); }, None => {} }
+    }
+    assert forall|e: naga::EntryPoint| arg_is_h(&e, h) == arg_is(&e, i) by {
+        if arg_is_h(&e, h) { let a = choose|a: int| 0 <= a < e.function.arguments@.len() && (#[trigger] e.function.arguments@[a]).ty == h; assert(handle_index(e.function.arguments@[a].ty) == i); }
+        if arg_is(&e, i) { let a = choose|a: int| 0 <= a < e.function.arguments@.len() && handle_index(#[trigger] e.function.arguments@[a].ty) == i; axiom_mk_handle(e.function.arguments@[a].ty); axiom_mk_handle(h); }
+    }
+    assert((exists|k: int| 0 <= k < m.entry_points@.len() && result_is_h(&#[trigger] m.entry_points@[k], h)) == is_entry_result(m, i)) by {
+        if is_entry_result(m, i) { let k = choose|k: int| 0 <= k < m.entry_points@.len() && result_is(&#[trigger] m.entry_points@[k], i); assert(result_is_h(&m.entry_points@[k], h)); }
+        if exists|k: int| 0 <= k < m.entry_points@.len() && result_is_h(&#[trigger] m.entry_points@[k], h) { let k = choose|k: int| 0 <= k < m.entry_points@.len() && result_is_h(&#[trigger] m.entry_points@[k], h); assert(result_is(&m.entry_points@[k], i)); }
+    }
+    assert((exists|k: int| 0 <= k < m.entry_points@.len() && arg_is_h(&#[trigger] m.entry_points@[k], h)) == is_entry_arg(m, i)) by {
+        if is_entry_arg(m, i) { let k = choose|k: int| 0 <= k < m.entry_points@.len() && arg_is(&#[trigger] m.entry_points@[k], i); assert(arg_is_h(&m.entry_points@[k], h)); }
+        if exists|k: int| 0 <= k < m.entry_points@.len() && arg_is_h(&#[trigger] m.entry_points@[k], h) { let k = choose|k: int| 0 <= k < m.entry_points@.len() && arg_is_h(&#[trigger] m.entry_points@[k], h); assert(arg_is(&m.entry_points@[k], i)); }
+    }
+}
+// what `slice.iter().any(p)` says, in terms of the slice: `before`/`after` are the iterator's remaining elements before and after the call
+pub proof fn lemma_any_slice<T>(before: Seq<&T>, after: Seq<&T>, s: Seq<T>, r: bool, p: spec_fn(T) -> bool)
+    requires before.len() == s.len(), forall|i: int| 0 <= i < s.len() ==> *(#[trigger] before[i]) == s[i],
+        !r ==> forall|i: int| 0 <= i < s.len() ==> !p(*#[trigger] before[i]),
+        r ==> after.len() < before.len() && p(*before[before.len() - after.len() - 1]),
+    ensures r == (exists|i: int| 0 <= i < s.len() && p(#[trigger] s[i])),
+{
+    if r { let i = before.len() - after.len() - 1; assert(p(s[i])); }
+    else { assert forall|i: int| 0 <= i < s.len() implies !p(#[trigger] s[i]) by { assert(!p(*before[i])); } }
+}
+
+//@fn structs.rs::structs props=C08,C05,C09,C18
+pub fn structs(module: &naga::Module, options: WriteOptions) -> «(r:» TokenStream«)
+    requires
+        structs_pre(module, options), // [C08.pre] naga can lay out the module; type handles in range; every emitted struct is inside the documented feature set
+    ensures
+        ts_view(&r) == structs_toks(module, options), // [C08.emitted] [C18.arena-order] a struct is emitted iff it is reachable from the type of a module-scope variable, or is an entry parameter that is not an entry result; in arena order, once each; host-shareable = reachable from a module-scope variable»
+{
+    «broadcast use axiom_arena_index_req, axiom_uarena_index_req, axiom_handle_key_model, axiom_mk_handle;
+    let ghost gs = gvars(module);
+    let ghost n = tys(module).len() as int;»
+    // Initialize the layout calculator provided by naga.
+    let mut layouter = naga::proc::Layouter::default();
+    layouter.update(module.to_ctx()).unwrap();
+
+    let mut global_variable_types = HashSet::new();
+    for g in «it:» module.global_variables.iter()
+        «invariant
+            it.iter.obeys_prophetic_iter_laws(), structs_pre(module, options), gs == gvars(module),
+            it.seq().len() == gs.len(),
+            forall|j: int| 0 <= j < it.seq().len() ==> *(#[trigger] it.seq()[j]).1 == gs[j],
+            closed(module, global_variable_types@),
+            forall|d: int| #[trigger] seen(global_variable_types@, d) <==> host_upto(module, it.index@ as int, d),»
+    {
+        «broadcast use axiom_arena_index_req, axiom_uarena_index_req, axiom_handle_key_model, axiom_mk_handle;
+        let ghost k = it.index@ as int;
+        let ghost v0 = global_variable_types@;
+        assert(*it.seq()[k].1 == gs[k]);
+        let ghost t = handle_index(g.1.ty);»
+        add_types_recursive(&mut global_variable_types, module, g.1.ty);
+        «proof {
+            let v1 = global_variable_types@;
+            assert forall|a: int, b: int| seen(v1, a) && #[trigger] edge(module, a, b) implies seen(v1, b) by {
+                if seen(v0, a) { assert(seen(v0, b)); }
+            }
+            assert forall|d: int| #[trigger] seen(v1, d) <==> host_upto(module, k + 1, d) by {
+                if seen(v1, d) {
+                    if seen(v0, d) { let g0 = choose|g0: int| 0 <= g0 < k && #[trigger] reach(module, handle_index(gs[g0].ty), d); assert(host_upto(module, k + 1, d)); }
+                    else { assert(reach(module, handle_index(gs[k].ty), d)); }
+                }
+                if host_upto(module, k + 1, d) {
+                    let g0 = choose|g0: int| 0 <= g0 < k + 1 && #[trigger] reach(module, handle_index(gs[g0].ty), d);
+                    if g0 < k { assert(host_upto(module, k, d)); assert(seen(v0, d)); }
+                }
+            }
+        }»
+    }
+    «let ghost gvt = global_variable_types@;
+    proof {
+        assert forall|h: naga::Handle<naga::Type>| gvt.contains(h) == host_visible(module, handle_index(h)) by {
+            assert(seen(gvt, handle_index(h)) == gvt.contains(h));
+            assert(host_upto(module, gs.len() as int, handle_index(h)) == host_visible(module, handle_index(h)));
+        }
+    }
+
+    // Create matching Rust structs for WGSL structs.
+    // This is a UniqueArena, so each struct will only be generated once.
+    let ghost mut gi;
+    let ghost mut gf;»
+    let structs «= { let __m = { let __f = { let __i» = module
+        .types
+        .iter()«; proof { gi = __i; } __i }»
+        .shim_filter(|__p0| «-> (o: bool) ensures o == emitted_h(module, global_variable_types@, __p0.0)» { let (h, _) = __p0;
+            // Check if the struct will need to be used by the user from Rust.
+            // This includes function inputs like vertex attributes and global variables.
+            // Shader stage function outputs will not be accessible from Rust.
+            // Skipping internal structs helps avoid issues deriving encase or bytemuck.
+            !«{ let mut __a =» module
+                .entry_points
+                .iter()«; let ghost a0 = __a; let __r = __a»
+                .any(|e| «-> (o2: bool) ensures o2 == result_is_h(e, *h) {» e.function.result.as_ref().map(|r| «-> (o3: naga::Handle<naga::Type>) ensures o3 == r.ty {» r.ty «}»).shim_opt_eq(Some(*h)) «}»)«; proof {
+                    lemma_any_slice(a0.remaining(), __a.remaining(), module.entry_points@, __r, |e: naga::EntryPoint| result_is_h(&e, *h));
+                } __r }»
+                && «{ let mut __b =» module
+                    .entry_points
+                    .iter()«; let ghost b0 = __b; let __r = __b»
+                    .any(|e| «-> (o2: bool) ensures o2 == arg_is_h(e, *h) { { let mut __c =» e.function.arguments.iter()«; let ghost c0 = __c; let __r2 = __c».any(|a| «-> (o3: bool) ensures o3 == (a.ty == *h) {» a.ty == *h «}»)«; proof {
+                        lemma_any_slice(c0.remaining(), __c.remaining(), e.function.arguments@, __r2, |a: naga::FunctionArgument| a.ty == *h);
+                    } __r2 } }»)«; proof {
+                        lemma_any_slice(b0.remaining(), __b.remaining(), module.entry_points@, __r, |e: naga::EntryPoint| arg_is_h(&e, *h));
+                    } __r }»
+                || global_variable_types.contains(h)
+        })«; proof { gf = __f;
+            let rem = gi.remaining();
+            assert forall|i: int| 0 <= i < rem.len() implies handle_index((#[trigger] rem[i]).0) == i && *rem[i].1 == tys(module)[i] by {}
+            let bs = choose|bs: Seq<bool>| #![trigger keep(rem, bs)] bs.len() == rem.len()
+                && (forall|i: int| 0 <= i < bs.len() ==> #[trigger] bs[i] == emitted_h(module, gvt, rem[i].0)) && __f.remaining() == keep(rem, bs);
+            assert forall|j: int| 0 <= j < __f.remaining().len() implies emitted_in(module, gvt, (#[trigger] __f.remaining()[j]).0, __f.remaining()[j].1) by {
+                lemma_keep_elems(rem, bs, j);
+                let i = choose|i: int| 0 <= i < rem.len() && bs[i] && #[trigger] rem[i] == keep(rem, bs)[j];
+                assert(bs[i] == emitted_h(module, gvt, rem[i].0));
+            }
+        } __f }»
+        .shim_filter_map(|__p1| «-> (o: Option<TokenStream>) requires structs_pre(module, options), emitted_in(module, global_variable_types@, __p1.0, __p1.1), layouter_module(&layouter) == Some(module), gvt == global_variable_types@,
+                forall|h: naga::Handle<naga::Type>| gvt.contains(h) == host_visible(module, handle_index(h))
+            ensures opt_ts(o) == struct_item(module, handle_index(__p1.0), options)» { let (t_handle, t) = __p1;
+            «proof { lemma_emitted_h(module, gvt, t_handle); }»
+            if let naga::TypeInner::Struct { members, .. } = &t.inner {
+                Some(rust_struct(
+                    t,
+                    members,
+                    &layouter,
+                    t_handle,
+                    module,
+                    options,
+                    &global_variable_types,
+                ))
+            } else {
+                None
+            }
+        }); «proof {
+            let rem = gi.remaining();
+            assert(rem.len() == n);
+            assert forall|i: int| 0 <= i < n implies handle_index((#[trigger] rem[i]).0) == i && *rem[i].1 == tys(module)[i] by {}
+            let bs = choose|bs: Seq<bool>| #![trigger keep(rem, bs)] bs.len() == rem.len()
+                && (forall|i: int| 0 <= i < bs.len() ==> #[trigger] bs[i] == emitted_h(module, gvt, rem[i].0)) && gf.remaining() == keep(rem, bs);
+            let kept = keep(rem, bs);
+            let ys = choose|ys: Seq<Option<TokenStream>>| #![trigger somes(ys)] ys.len() == kept.len()
+                && (forall|j: int| 0 <= j < ys.len() ==> opt_ts(#[trigger] ys[j]) == struct_item(module, handle_index(kept[j].0), options))
+                && elems(&__m) == somes(ys);
+            let f = |p: (naga::Handle<naga::Type>, &naga::Type)| struct_item(module, handle_index(p.0), options);
+            let ysv = Seq::new(ys.len(), |j: int| opt_ts(ys[j]));
+            let zs = struct_items(module, options);
+            assert forall|i: int| 0 <= i < n implies #[trigger] zs[i] == (if bs[i] { f(rem[i]) } else { None }) by {
+                lemma_emitted_h(module, gvt, rem[i].0);
+            }
+            lemma_somes_keep(rem, bs, ysv, zs, f);
+            lemma_somes_toks(ys, ysv);
+            assert(toks_of(elems(&__m)) =~= somes(zs));
+        } __m };»
+
+    quote!(#(#structs)*)
+}
+//@end
 
 } // verus!
 fn main() {}
